@@ -13,6 +13,7 @@ for o,d in zip(ops,st):
     if not o: continue
     out.append(o)
     if o.startswith('session') or o.startswith('round'):
-        if d not in ('case','ok') and not d.startswith('crash') and not d.startswith('skip') and not d.startswith('bad'):
+        # '-' = no digest was taken for this line (cases beyond the per-shard digest cap of the thorough tier)
+        if d not in ('case','ok','-','') and not d.startswith('crash') and not d.startswith('skip') and not d.startswith('bad'):
             out.append('#D '+d)
 sys.stdout.write('\n'.join(out)+'\n')
